@@ -67,7 +67,7 @@ theorem close_idle {s : St} (hr : AtRest s) (h0 : unfinished s = 0) :
   have hnd : isDone s.closing = false := by rw [hr.closing]; rfl
   have e1 : (step s .close).1 = beginJoin (cancelConn s) := by
     have hu : reconOwner s.recon ≠ some .user := hr.notUser
-    simp [step, closeEv, hr.closing, hu, isDone]
+    simp [step, stepDone, stepLive, closeEv, hr.closing, hu, isDone]
   have hj : (beginJoin (cancelConn s)).closing = .joined s.now := by
     rw [beginJoin_closing, unfinished_cancelConn, h0, (cancelConn_fields s).1]; rfl
   have hro : reconOwner (beginJoin (cancelConn s)).recon = none ∨ reconOwner (beginJoin (cancelConn s)).recon = some .proto := by
@@ -104,7 +104,7 @@ theorem close_draining {s : St} (hs : Reachable s) (hr : AtRest s) (dl : Nat) (g
   have hw : s.writer.isSome = true := (hs.winv (by rw [hr.closing]; rfl) (Or.inl hc)).1
   have e1 : (step s .close).1 = beginJoin (cancelConn s) := by
     have hu : reconOwner s.recon ≠ some .user := hr.notUser
-    simp [step, closeEv, hr.closing, hu, isDone]
+    simp [step, stepDone, stepLive, closeEv, hr.closing, hu, isDone]
   obtain ⟨c1, c2, c3, c4, c5, c6, c7, c8, c9, c10⟩ := cancelConn_fields s
   obtain ⟨b1, b2, b3, b4, b5, b6, b7, b8, b9, b10⟩ := beginJoin_fields (cancelConn s)
   have hcr : (cancelConn s).recon = .idle := by unfold cancelConn; split <;> first | rfl | exact hrec
@@ -182,7 +182,7 @@ theorem close_during_setup {s : St} (hs : Reachable s) (hr : AtRest s)
   have hw : s.writer.isSome = true := (hs.winv (by rw [hr.closing]; rfl) (Or.inl hc)).1
   have e1 : (step s .close).1 = beginJoin (cancelConn s) := by
     have hu : reconOwner s.recon ≠ some .user := hr.notUser
-    simp [step, closeEv, hr.closing, hu, isDone]
+    simp [step, stepDone, stepLive, closeEv, hr.closing, hu, isDone]
   obtain ⟨c1, c2, c3, c4, c5, c6, c7, c8, c9, c10⟩ := cancelConn_fields s
   obtain ⟨b1, b2, b3, b4, b5, b6, b7, b8, b9, b10⟩ := beginJoin_fields (cancelConn s)
   have hcr : (cancelConn s).recon = .idle := by unfold cancelConn; split <;> first | rfl | exact hrec
@@ -352,7 +352,7 @@ theorem stuck_disconnected_forever {s : St} {t0 : Nat} (h : Stuck s t0) (hd : De
       cases e with
       | feed f =>
         have hnd : isDone s.closing = false := by rw [h.closing]; rfl
-        have : step s (.feed f) = (s, []) := by simp [step, hnd, feed, hd.prod]
+        have : step s (.feed f) = (s, []) := by simp [step, stepDone, stepLive, hnd, feed, hd.prod]
         simp only [run, this]
         exact ih h hd
       | _ => simp [isFeed] at hfe
